@@ -845,6 +845,7 @@ func Run(c *ev.Ctx) int {
 			run(func() { laneGate2(c, id, first, second) })
 		}
 	}
+	run(func() { laneDirectCache(c, c.Rng("direct").Int63()) })
 	nConc := c.Pick(10, 400)
 	rc := c.Rng("conc")
 	for i := 0; i < nConc; i++ {
